@@ -42,6 +42,8 @@ def build(tier):
         lit = rs(s)
         case("field-rename", kind, s, TypeDef("X", "struct", "named", [Field("i32", "a", [f"#[ts(rename = {lit})]"]), Field("bool", "b")], derives=TS_ONLY, vals=False), keys=[s, "b"])
         case("variant-field-rename", kind, s, TypeDef("X", "enum", variants=[Variant("V", "named", [Field("i32", "a", [f"#[ts(rename = {lit})]"])]), Variant("W", "unit")], derives=TS_ONLY, vals=False), keys=[s], lits=["W"])
+        case("field-rename+type-override", kind, s, TypeDef("X", "struct", "named", [Field("i32", "a", [f"#[ts(rename = {lit}, type = \"string\")]"]), Field("bool", "b", ['#[ts(type = "boolean")]'])], derives=TS_ONLY, vals=False), keys=[s, "b"])
+        case("variant-field-rename+type-override", kind, s, TypeDef("X", "enum", variants=[Variant("V", "named", [Field("i32", "a", [f"#[ts(rename = {lit}, type = \"string\")]"])]), Variant("W", "unit")], attrs=['#[ts(tag = "t")]'], derives=TS_ONLY, vals=False), keys=[s, "t"], lits=["V", "W"])
         case("struct-tag", kind, s, TypeDef("X", "struct", "named", [Field("i32", "a")], attrs=[f"#[ts(tag = {lit})]"], derives=TS_ONLY, vals=False), keys=[s, "a"], lits=["X"])
         vs = [Variant("A", "unit"), Variant("B", "tuple", [Field("i32")]), Variant("C", "named", [Field("i32", "x")])]
         case("enum-tag-internal", kind, s, TypeDef("X", "enum", variants=[vs[0], Variant("C", "named", [Field("i32", "x")])], attrs=[f"#[ts(tag = {lit})]"], derives=TS_ONLY, vals=False), keys=[s, "x"], lits=["A", "C"])
@@ -56,6 +58,11 @@ def build(tier):
             else:
                 case(f"variant-rename-{rp}-unit", kind, s, TypeDef("X", "enum", variants=vr, attrs=list(rattr), derives=TS_ONLY, vals=False), lits=[s, "C"])
                 case(f"variant-rename-{rp}-struct", kind, s, TypeDef("X", "enum", variants=vr2, attrs=list(rattr), derives=TS_ONLY, vals=False), lits=[s, "A"])
+    # rename_all producing non-identifier keys, with and without type overrides / optional / inline
+    for rule, key in (("kebab-case", "multi-word"), ("SCREAMING-KEBAB-CASE", "MULTI-WORD")):
+        td = TypeDef("X", "struct", "named", [Field("i32", "multi_word", ['#[ts(type = "number")]']), Field("Option<i32>", "other_one", ["#[ts(optional)]"]), Field("St", "third_one", ["#[ts(inline)]"])], attrs=[f'#[ts(rename_all = "{rule}")]'], derives=TS_ONLY, vals=False)
+        out.append(Case({"family": "string-content", "position": "rename_all+type-override", "string_kind": rule}, [td],
+                        [f'ctx.c04_strings::<X>("X", &[{rs(key)}], &[]);']))
     # type-level rename: valid TypeScript identifiers only (a type alias has no quoted form)
     for name in ("Zed", "_z", "$z", "Zé", "Z1", "日本"):
         td = TypeDef("X", "struct", "named", [Field("i32", "a")], attrs=[f"#[ts(rename = {rs(name)})]"], derives=TS_ONLY, vals=False)
